@@ -25,3 +25,19 @@ Theorem C08_inside_block_comment_neutral : forall parse_stmt m l l',
   process_line parse_stmt m l true = Ok (m, ([], [l'])).
 Proof. exact inside_block_comment_neutral. Qed.
 Print Assumptions C08_inside_block_comment_neutral.
+
+(* ---------- a trailing '-- comment' after the code of a one-line statement ---------------------------------------------------------------
+   Under conditions about the line alone (the '--' stands outside quotes, the code before it is a one-line statement ending with ';')
+   and for ANY statement parser: the statement is parsed exactly as without the comment, the comment text is reported in the
+   comments output and nowhere else, and the machine is back in its initial state. *)
+Theorem C08_trailing_comment_neutral : forall parse_stmt l l' code text not_last,
+  one_line_with_trailing_comment l l' code text ->
+  process_line parse_stmt lm0 l not_last =
+  (do r <- parse_stmt (drop_last (code_of code)); Ok (lm0, (entities_of r, [text]))).
+Proof. exact trailing_comment_neutral. Qed.
+Print Assumptions C08_trailing_comment_neutral.
+Example C08_trailing_comment_example :
+  one_line_with_trailing_comment "CREATE TABLE t (a int, b text); -- drop table t; create table z (q int)"
+                                 "CREATE TABLE t (a int, b text); -- drop table t; create table z (q int)"
+                                 "CREATE TABLE t (a int, b text); " " drop table t; create table z (q int)".
+Proof. constructor; try (vm_compute; reflexivity). exists []. vm_compute. reflexivity. Qed.
